@@ -157,10 +157,22 @@ def operator_table(m: ModuleInfo, res: CheckResult) -> None:
             n += 1
             res.evaluated(f"op:{cname}.{name}", True)
             rets = [r for r in _returns(fn) if norm(r.value) != "NotImplemented"]
-            if len(rets) != 1:
-                raise AnalysisError(f"{cname}.{name}: expected one building return, found {len(rets)}")
-            t = _term(rets[0].value, ps[0], other)
             want = EXPECT_OPS[name]
+            if not rets:
+                raise AnalysisError(f"{cname}.{name}: no building return")
+            if len(rets) > 1:
+                # several paths: each of them has to build the documented combinator; a path that builds anything else (a rewritten
+                # chain, a "simplified" form) makes the operator something other than the pointwise boolean operation
+                for r in rets:
+                    t = _term(r.value, ps[0], other)
+                    if t != want:
+                        res.add(Finding("C10", "OP.table", m.rel, f"{cname}.{name}", norm(r.value)[:120],
+                                        f"`{name}` has a path that returns `{norm(r.value)[:100]}`, which is not the documented combinator "
+                                        f"{want} applied to the two operands as they are (pointwise boolean operation, operands in source "
+                                        "order): chain elements align from the END of the location stack, so regrouping or rewriting "
+                                        "the operands changes which location each element is tested against", r.lineno))
+                continue
+            t = _term(rets[0].value, ps[0], other)
             res.sample({"method": f"{cname}.{name}", "builds": str(t)}, limit=12)
             if t is None or (isinstance(t, tuple) and (None in (t[1] if isinstance(t[1], list) else [t[1]]))):
                 raise AnalysisError(f"{cname}.{name}: cannot interpret `{norm(rets[0].value)}`")
